@@ -249,6 +249,31 @@ func (c *Ctx) exec(st *State, s ast.Stmt, k konts) {
 		st.defers = append(st.defers, deferred{call: x.Call})
 		k.next(st)
 	case *ast.GoStmt:
+		if fl, ok := unparen(x.Call.Fun).(*ast.FuncLit); ok && c.inlineGo(fl) {
+			// (a) `go` + WaitGroup.Wait() in the same function, body under one mutex: executed in place, once
+			// per spawn (an arbitrary but sequential order) — stated abstraction
+			c.note("go func literal executed in place (flag inline-go): goroutines of this loop are serialised by a mutex and awaited before the function continues")
+			i := 0
+			for _, fld := range fl.Type.Params.List {
+				for _, n := range fld.Names {
+					if o, ok := c.info.Defs[n].(*types.Var); ok && i < len(x.Call.Args) {
+						c.declareVar(st, n, c.evalAs(st, x.Call.Args[i], o.Type()))
+					}
+					i++
+				}
+			}
+			saved := st.defers
+			st.defers = nil
+			fin := func(s *State) {
+				c.runDefers(s, func(s2 *State) {
+					s2.defers = saved
+					k.next(s2)
+				})
+			}
+			kk := konts{next: fin, ret: func(s *State, _ []Val) { fin(s) }}
+			c.execBlock(st, fl.Body.List, kk)
+			return
+		}
 		c.execGo(st, x)
 		k.next(st)
 	case *ast.SendStmt:
@@ -285,6 +310,12 @@ func (c *Ctx) seqSort(elem Sort) Sort {
 
 func (c *Ctx) execIf(st *State, x *ast.IfStmt, k konts) {
 	cond := c.eval(st, x.Cond)
+	if cond.T != "true" && cond.T != "false" && c.simpleBranch(x.Body) && (x.Else == nil || c.simpleBranch(x.Else)) {
+		if merged := c.mergeIf(st, x, cond.T); merged != nil {
+			k.next(merged)
+			return
+		}
+	}
 	if cond.T != "false" {
 		s1 := st.clone()
 		s1.assume(cond.T)
@@ -299,6 +330,159 @@ func (c *Ctx) execIf(st *State, x *ast.IfStmt, k konts) {
 			k.next(s2)
 		}
 	}
+}
+
+// simpleBranch: straight-line code (assignments, calls, nested simple ifs) that always falls through.
+func (c *Ctx) simpleBranch(n ast.Stmt) bool {
+	ok := true
+	ast.Inspect(n, func(m ast.Node) bool {
+		switch y := m.(type) {
+		case *ast.ReturnStmt, *ast.BranchStmt, *ast.LabeledStmt, *ast.GoStmt, *ast.DeferStmt, *ast.ForStmt,
+			*ast.RangeStmt, *ast.SelectStmt, *ast.SwitchStmt, *ast.TypeSwitchStmt, *ast.FuncLit, *ast.SendStmt:
+			ok = false
+		case *ast.CallExpr:
+			if id, isId := unparen(y.Fun).(*ast.Ident); isId && id.Name == "panic" {
+				ok = false
+			}
+		}
+		return ok
+	})
+	return ok
+}
+
+// mergeIf executes both branches of a simple if and joins the two resulting states with if-then-else terms
+// (no path split). Returns nil when the states cannot be joined (a branch havoc'd the whole heap, aborted...).
+func (c *Ctx) mergeIf(st *State, x *ast.IfStmt, cond string) *State {
+	base := len(st.pc)
+	run := func(s *State, body ast.Stmt) *State {
+		var out *State
+		n := 0
+		kk := konts{next: func(r *State) { out = r; n++ }}
+		c.exec(s, body, kk)
+		if n != 1 {
+			return nil
+		}
+		return out
+	}
+	savedAbort := c.aborted
+	s1 := st.clone()
+	s1.assume(cond)
+	r1 := run(s1, x.Body)
+	s2 := st.clone()
+	s2.assume(not(cond))
+	r2 := s2
+	if x.Else != nil {
+		r2 = run(s2, x.Else)
+	}
+	if r1 == nil || r2 == nil || c.aborted != savedAbort || r1.epoch != st.epoch || r2.epoch != st.epoch {
+		if r1 != nil && r2 != nil && c.aborted == savedAbort {
+			c.note("if-merge gave up (a branch havocs the whole heap) at " + c.pos(x))
+		}
+		return nil
+	}
+	for k2 := range r1.heap {
+		if strings.HasPrefix(k2, "\x00ep:") {
+			return nil
+		}
+	}
+	for k2 := range r2.heap {
+		if strings.HasPrefix(k2, "\x00ep:") {
+			return nil
+		}
+	}
+	m := st.clone()
+	m.pc = m.pc[:base]
+	// guarded facts of each branch
+	for _, p := range r1.pc[base+1:] {
+		m.assume(implies(cond, p))
+	}
+	for _, p := range r2.pc[base+1:] {
+		m.assume(implies(not(cond), p))
+	}
+	ite := func(prefix string, a, b Val) Val {
+		if a.T == b.T {
+			return a
+		}
+		n := c.fresh(prefix, a.S)
+		m.assume("(= " + n + " (ite " + cond + " " + a.T + " " + b.T + "))")
+		return Val{T: n, S: a.S, GT: a.GT}
+	}
+	for o, v0 := range st.vars {
+		a, ok1 := r1.vars[o]
+		b, ok2 := r2.vars[o]
+		if !ok1 {
+			a = v0
+		}
+		if !ok2 {
+			b = v0
+		}
+		if a.S != b.S {
+			return nil
+		}
+		m.vars[o] = ite("m_"+o.Name(), a, b)
+	}
+	// variables first read (havoc'd as free) inside a branch only are dropped
+	for o, v := range r1.cells {
+		m.cells[o] = v
+	}
+	for o, v := range r2.cells {
+		m.cells[o] = v
+	}
+	keys := map[string]bool{}
+	for k2 := range r1.heap {
+		keys[k2] = true
+	}
+	for k2 := range r2.heap {
+		keys[k2] = true
+	}
+	for k2 := range keys {
+		as, ok := heapSorts[k2]
+		if !ok {
+			c.note("if-merge gave up: unknown sort of heap key " + k2)
+			return nil
+		}
+		a := c.heapRead(r1, k2, as)
+		b := c.heapRead(r2, k2, as)
+		if a == b {
+			m.heap[k2] = a
+			continue
+		}
+		n := c.fresh("H!"+mangle(k2), as)
+		m.assume("(= " + n + " (ite " + cond + " " + a + " " + b + "))")
+		m.heap[k2] = n
+	}
+	gk := map[string]bool{}
+	for g := range r1.ghost {
+		gk[g] = true
+	}
+	for g := range r2.ghost {
+		gk[g] = true
+	}
+	for g := range gk {
+		a, ok1 := r1.ghost[g]
+		b, ok2 := r2.ghost[g]
+		if !ok1 || !ok2 {
+			if strings.HasPrefix(g, "spawned_") {
+				if !ok1 {
+					a = Val{T: "0", S: "Int"}
+				}
+				if !ok2 {
+					b = Val{T: "0", S: "Int"}
+				}
+			} else if ok1 {
+				m.ghost[g] = a
+				continue
+			} else {
+				m.ghost[g] = b
+				continue
+			}
+		}
+		if a.S != b.S {
+			return nil
+		}
+		m.ghost[g] = ite("mg", a, b)
+	}
+	return m
 }
 
 func (c *Ctx) execDecl(st *State, x *ast.DeclStmt) {
@@ -672,6 +856,7 @@ func (c *Ctx) execTypeSwitch(st *State, x *ast.TypeSwitchStmt, k konts) {
 		}
 		s1.assume(cond)
 		bind(s1, cc, single)
+		c.pointClauses(s1, "case "+types.ExprString(cc.List[0]), cc.Colon+1)
 		c.execBlock(s1, cc.Body, kb)
 		negs = append(negs, not(cond))
 	}
@@ -781,4 +966,23 @@ func isDoneRecv(s ast.Stmt) bool {
 	}
 	sel, ok := unparen(call.Fun).(*ast.SelectorExpr)
 	return ok && sel.Sel.Name == "Done"
+}
+
+// inlineGo: is this function literal marked `flag inline-go$k` in the unit's contract?
+func (c *Ctx) inlineGo(fl *ast.FuncLit) bool {
+	if c.prefix != "" || c.unit.Contract == nil {
+		return false
+	}
+	var body ast.Node
+	if c.unit.Lit != nil {
+		body = c.unit.Lit.Body
+	} else {
+		body = c.unit.Decl.Body
+	}
+	for i, l := range funcLitsOf(body) {
+		if l == fl {
+			return c.unit.Contract.Flags[fmt.Sprintf("inline-go$%d", i+1)]
+		}
+	}
+	return false
 }
